@@ -10,4 +10,5 @@ INVARIANT Inv_C05_Cover
 INVARIANT Inv_C05_Multiset
 INVARIANT Inv_C05_Sorted
 INVARIANT Inv_PartsNonEmpty
+INVARIANT Inv_PlanIsDesignPlan
 CHECK_DEADLOCK FALSE
